@@ -3,8 +3,7 @@ package main
 import (
 	"bytes"
 	"crypto"
-	"crypto/ecdsa"
-	"crypto/elliptic"
+	"crypto/ed25519"
 	"crypto/x509"
 	"crypto/x509/pkix"
 	"fmt"
@@ -59,11 +58,13 @@ func pgpKeyWithIdentities(r *Rng, n int, when time.Time) []byte {
 }
 
 func certWith(r *Rng, ku x509.KeyUsage, ekus []x509.ExtKeyUsage, dns []string, ips []net.IP, when time.Time) []byte {
-	priv, _ := ecdsa.GenerateKey(elliptic.P256(), r)
+	// ed25519: key generation and signing are deterministic functions of the random source,
+	// so the case stream replays exactly from its seed (crypto/ecdsa and crypto/rsa are not)
+	pub, priv, _ := ed25519.GenerateKey(r)
 	tmpl := &x509.Certificate{SerialNumber: big.NewInt(int64(1 + r.Intn(1<<30))), Subject: pkix.Name{CommonName: "c04"},
 		NotBefore: when, NotAfter: when.Add(24 * time.Hour), KeyUsage: ku, ExtKeyUsage: ekus, DNSNames: dns, IPAddresses: ips,
 		EmailAddresses: []string{"a@example.org", "b@example.org"}}
-	der, err := x509.CreateCertificate(r, tmpl, tmpl, &priv.PublicKey, priv)
+	der, err := x509.CreateCertificate(r, tmpl, tmpl, pub, priv)
 	if err != nil {
 		fmt.Fprintln(os.Stderr, "CreateCertificate:", err)
 		os.Exit(1)
@@ -76,7 +77,6 @@ func genC04(c *Ctx) {
 	if c.Thorough() {
 		reps, cliReps = 1000, 5
 	}
-	nearMidnight := time.Date(2024, 3, 1, 23, 30, 0, 0, time.UTC)
 	type inp struct {
 		tag, name string
 		data      []byte
@@ -86,8 +86,8 @@ func genC04(c *Ctx) {
 		{"cert-fixture-sans", "gh.cer", fixture("x509/der/github.com.cer")},
 		{"jks", "keystore.jks", fixture("java/keystore.jks")},
 		{"jceks", "keystore-jce.jks", fixture("java/keystore-jce.jks")},
-		{"pgp-3ids", "k3.asc", pgpKeyWithIdentities(c.R, 3, nearMidnight)},
-		{"pgp-4ids", "k4.asc", pgpKeyWithIdentities(c.R, 4, time.Date(2023, 12, 31, 0, 10, 0, 0, time.UTC))},
+		{"pgp-3ids", "k3.asc", embedded("pgp/ids3.asc")},
+		{"pgp-4ids", "k4.asc", embedded("pgp/ids4.asc")},
 		{"pem-bundle", "chain.pem", fixture("java/chain.pem")},
 		{"jwt", "t.jwt", jwtWith(map[string]any{"sub": "s", "iss": "i", "aud": "a", "jti": "j", "exp": "1700000000", "iat": "1700000000", "nbf": "1700000000"},
 			map[string]any{"alg": "ES256", "typ": "JWT", "kid": "k", "x5u": "u", "jku": "j"})},
@@ -172,4 +172,13 @@ func genC04(c *Ctx) {
 		os.Remove(p)
 	}
 	os.RemoveAll(dir)
+}
+
+func embedded(rel string) []byte {
+	b, err := fixturesFS.ReadFile("testdata/" + rel)
+	if err != nil {
+		fmt.Fprintln(os.Stderr, "embedded fixture:", err)
+		os.Exit(1)
+	}
+	return b
 }
